@@ -517,36 +517,27 @@ Proof.
 Qed.
 
 (* ---------- Imaging._acquire / System ---------- *)
-Theorem args_equal_system pops base m w x l :
-  fst (acquire pops base (mkOpts m w) (mkSys None None) x l) =
-  fst (acquire pops base (mkOpts None None) (mkSys m w) x l).
+Theorem args_equal_system base m w x l :
+  fst (acquire base (mkOpts m w) (mkSys None None) x l) =
+  fst (acquire base (mkOpts None None) (mkSys m w) x l).
 Proof. unfold acquire, resolve_cfg, resolve. cbn. destruct m, w; reflexivity. Qed.
 
-Theorem arg_overrides_system pops base m w sys x l :
-  fst (acquire pops base (mkOpts (Some m) (Some w)) sys x l) =
-  fst (acquire pops base (mkOpts (Some m) (Some w)) (mkSys None None) x l).
+Theorem arg_overrides_system base m w sys x l :
+  fst (acquire base (mkOpts (Some m) (Some w)) sys x l) =
+  fst (acquire base (mkOpts (Some m) (Some w)) (mkSys None None) x l).
 Proof. reflexivity. Qed.
 
-(* repeated use of one probe instance: without the option-popping the second acquisition equals the first *)
+(* repeated use of one probe instance: the second acquisition equals the first, and the probe keeps its options *)
 Theorem repeated_use_stable base o sys x l :
-  let '(v1, v2) := acquire2 false base o sys x l in v1 = v2.
+  let '(v1, v2) := acquire2 base o sys x l in v1 = v2.
 Proof. reflexivity. Qed.
 
-(* with the option-popping found in probe.py 203/206 the second acquisition forgets the arguments *)
+Theorem acquire_keeps_options base o sys x l : snd (acquire base o sys x l) = o.
+Proof. reflexivity. Qed.
+
 Definition witness_base : icfg := mkCfg Point [] 0 false None None None.
-Definition witness_state : pstate := mkPS (RtoC 1) [] 0.
 
-Theorem repeated_use_refuted :
-  exists base o sys x l, let '(v1, v2) := acquire2 true base o sys x l in v1 <> v2.
-Proof.
-  exists witness_base, (mkOpts None (Some (RtoC 2))), (mkSys None None), [], [witness_state].
-  unfold acquire2, acquire, resolve_cfg, next_opts, img, resolve, keepb, kkeepb, mkeepb, modul_eff. cbn.
-  unfold term, form, modfac, modre, modim, phasefac, wfac, modul_eff. cbn.
-  rewrite cis_0. intros E. apply (f_equal fst) in E. simpl in E. lra.
-Qed.
-
-(* the same with the popped option being the modulation (the witness replayed on the implementation:
-   T(90,90) C(1) ADC probed with Imaging([0], modulation=0.1j, voxel_shape='point')) *)
+(* non-vacuity of box_is_average_1d *)
 Example box_nonvacuous :
   CInt (fun u => img_all (as_point witness_base) [u] [mkPS (RtoC 1) [2] 0]) (1 - 3 / 2) (1 + 3 / 2)
        (Cmult (RtoC 3) (img_all (as_box witness_base [3]) [1] [mkPS (RtoC 1) [2] 0])).
